@@ -2146,7 +2146,8 @@ def c11_r8(ctx, f, rid="C11.R8", report_d1=False):
         bad = []
         cands = [dx for dx, dy in info["scored"]]
         want_c = [("tok", ("masked", placed, m)) for m in ref.MASKS]
-        if sorted(map(repr, cands)) != sorted(map(repr, want_c)):
+        # when a mask is imposed the search is immaterial: it may be skipped altogether (no candidate scored)
+        if sorted(map(repr, cands)) != sorted(map(repr, want_c)) and not (forced is not None and not cands):
             bad.append(("candidates", "the placed matrix masked once with each of the 8 patterns", [str(c)[:90] for c in cands if c not in want_c][:2] or
                         "%d candidates" % len(cands)))
         for dx, dy in info["scored"]:
@@ -2338,7 +2339,7 @@ def c04_r5(ctx, f, rid="C04.R5"):
     return decided
 
 
-def c01_r6(ctx, f, rid="C01.R6"):
+def c01_r6(ctx, f, rid="C01.R6", report_fields=True):
     ctx.rule(rid, "pipeline composition by partial evaluation with the stages summarised: the symbol is place_on_matrix(structure(encode("
                   "input, level, mode, version), level, version) as an 8*codewords+remainder bit string, level, version, mask), reporting "
                   "the same level, mode and version (3 x 4 x 40 configurations)")
@@ -2440,7 +2441,11 @@ def c01_r6(ctx, f, rid="C01.R6"):
                 rep = (to_py(_qr_get(f, q, "mode")), to_py(_qr_get(f, q, "ecl")), to_py(_qr_get(f, q, "version")), _qr_get(f, q, "data"))
                 want = ({"variant": "Some", "fields": [mode]}, {"variant": "Some", "fields": [l]}, {"variant": "Some", "fields": [vv]},
                         ("tok", ("symbol",)))
-                if rep != want:
+                if rep[3] != want[3]:
+                    bad.append(("returned-matrix", "the matrix place_on_matrix built", str(rep[3])[:160]))
+                elif rep != want and report_fields and not ctx.inventory.get("c04_r5_decided"):
+                    # which stage fills in the mode / level / version fields is an internal matter: what the public constructor
+                    # reports is decided end to end by C04.R5 when that rule has run and decided
                     bad.append(("reported-fields", "mode/level/version used, matrix of place_on_matrix", str(rep)[:160]))
                 if bad:
                     groups.add(bad[0][0], inst, bad[0][1], bad[0][2])
